@@ -54,6 +54,10 @@ CHECKS = {
    technique="explicit-state BFS over append/force/reopen/crash/truncate sequences on the real WriteAheadLog (through the verif facade), conformance to a list model",
    text="Every sequence (to the completed depth) of append (size classes relative to the block being filled: header-only, 100 B, 10 KB, exact fit, one alignment unit too many, per-block maximum, maximum+8 which must be rejected), force, clean close+open, crash+open and truncate, from four seed states (empty; block zero 75% full; block zero full plus a full data block, forced; the same unforced); after every force and reopen the log is read back with read-ahead 1, 2, 4 and 16 and must equal the records appended since the last truncation and covered by a force: same order, strictly increasing sequence numbers, identical ids/kinds/payloads; unforced records may be missing after a crash only as a suffix.",
    note="Trusted: the facade's pass-through (Wal::push assigns sequence numbers exactly like Pager::push_to_log) and the list model."),
+ "C18": dict(engine="tuple", cat=EX, ref="7/C18",
+   technique="exhaustive enumeration of bounded tuple histories x creator-state assignments x trimming horizons on the real tuple code (verif facade), against a list-of-versions model",
+   text="Every (schema, initial row, update chain) of a bounded family - 1-2 key columns, 0-3 value columns over {Int, BigInt, Double, Bool, Text} with NULLs, empty and 300-byte text, boundary integers; chains of <= 2 updates (thorough: 3) touching every subset of the value columns with every domain value; with and without a final delete - is built with the real TupleBuilder/add_version_with/delete, and for EVERY assignment of {committed before the reader, started after it, active, aborted, the reader itself} to the creator, each updater and the deleter the snapshot decoder must return exactly the newest version whose creator the reader may see (nothing if the deleter is visible or no version is), with every value and NULL flag intact; encode->decode is the identity for every version; for every trimming horizon valid for that reader, vacuuming must not change what it decodes.",
+   note="Trusted: the facade's pass-through and the version-list model. One listed finding (every version carries the row creator's id) is applied as an exact quirk: an execution is attributed to it only if the quirk model reproduces the decoded result exactly."),
  "C20": dict(engine="wire", cat=EX, ref="7/C20",
    technique="exhaustive enumeration of bounded message shapes and of all short / single-byte-mutated / length-corrupted byte strings against the real codec, in isolated worker processes with an address-space cap",
    text="Every Request and Response of a bounded shape (all variants; strings from {empty, ASCII, non-ASCII, 300 B, embedded NUL, 70 000 B}; boundary integers and floats; result sets up to 3x3 with every assignment of a 2-letter cell alphabet) is round-tripped through to_bytes/from_bytes and through the framing over an in-memory pipe, including a message of exactly MAX_MESSAGE_SIZE and one byte more. ALL byte strings of length <= 2 (thorough: <= 3), every strict prefix and every single-byte substitution of every short canonical encoding, and every length/count field set to boundary values are fed to both decoders and to the frame reader: each must return Ok/Err without panic, hang or an allocation beyond the 6 GiB cap; an accepted input must be stable under re-encoding; a strict prefix of a canonical encoding must be rejected.",
@@ -91,6 +95,8 @@ m = {
     "kind_free_text": "explicit-state BFS over tree operation sequences on the real Btree/Pager via the verif facade; ordered-map model, page-graph structure audit and whole-file ownership audit evaluated in the harness from raw page dumps"},
    {"name": "crash", "path": "harness/src/engines/crash.rs", "serves_properties": [k for k,v in CHECKS.items() if v["engine"]=="crash"],
     "kind_free_text": "fault enumeration: the seq engine's histories run under an I/O tap; every prefix of the file-mutation stream (and, for C08, of the recovery's own stream) is rebuilt and reopened"},
+   {"name": "tuple", "path": "harness/src/engines/tuple.rs", "serves_properties": ["C18"],
+    "kind_free_text": "flat exhaustive enumeration (index -> schema, row, update chain) with inner loops over state assignments and horizons, on the real tuple code via the verif facade"},
    {"name": "wal", "path": "harness/src/engines/wal.rs", "serves_properties": ["C17"],
     "kind_free_text": "explicit-state BFS over log operation sequences on the real WriteAheadLog via the verif facade, list model as oracle"},
    {"name": "wire", "path": "harness/src/engines/wire.rs", "serves_properties": ["C20"],
